@@ -64,6 +64,13 @@ def decl1(ctx: Ctx, chk) -> None:
     # child range validator inside validate_child_id
     f = ctx.func(f"{codec.MESSAGE_MOD}.validate_child_id")
     ranges = [n for n in ctx.own_nodes(f) if isinstance(n, ast.Call) and norm(n.func).endswith("validate.Range")]
+    if not ranges:
+        # the validator instance may be a module-level constant that validate_child_id calls
+        for n in ctx.own_nodes(f):
+            if isinstance(n, ast.Call) and isinstance(n.func, ast.Name) and len(n.args) == 1:
+                d_ = I.prog.resolve_name(f.module, n.func.id)
+                if d_ is not None and d_.kind == "const" and codec.validator_record(ctx, f.module, n.func).get("kind") == "Range":
+                    ranges.append(n.func)
     chk.instance(rule)
     if len(ranges) != 1:
         raise AnalysisError("DECL-1: child id Range validator not found in validate_child_id")
